@@ -40,6 +40,8 @@ pub struct SchedJson {
   pub notify_lifo: bool,
   #[serde(default)]
   pub spurious: bool,
+  #[serde(default)]
+  pub pct: Option<(u64, u8, u16)>,
 }
 
 impl From<&Schedule> for SchedJson {
@@ -50,6 +52,7 @@ impl From<&Schedule> for SchedJson {
       hash_seed: s.hash_seed,
       notify_lifo: s.notify_lifo,
       spurious: s.spurious,
+      pct: s.pct,
     }
   }
 }
@@ -62,6 +65,7 @@ impl SchedJson {
       hash_seed: self.hash_seed,
       notify_lifo: self.notify_lifo,
       spurious: self.spurious,
+      pct: self.pct,
     }
   }
 }
